@@ -30,6 +30,13 @@ def special(ctx):
     mk("empty", [], kind="empty", nrec=0)
     mk("imports", [Import("ipv4"), Import("eth"), Import("ipv4")], kind="imports-only", nrec=0)
     mk("bare", [Import("eth"), Do(Call("eth::frame", STR(b"\x01" * 6), STR(b"\x02" * 6)))], kind="bare-frame", nrec=1, lens=[14])
+    # frames around the size of the 16-byte record header that is prepended in place, each followed by more packets
+    for n in (0, 1, 2, 3):
+        mk("tiny%d" % n, [Import("eth"), Import("ipv4"),
+                          Do(Call("eth::frame", STR(b"\x01" * 6), STR(b"\x02" * 6), _x=[STR(b"\x07" * n)] if n else [])),
+                          Do(Call("ipv4::udp::unicast", SOCK("1.2.3.4:1"), SOCK("1.2.3.5:2"), _x=[STR("after")])),
+                          Do(Call("eth::frame", STR(b"\x01" * 6), STR(b"\x02" * 6), _x=[STR(b"\x08" * n)] if n else []))],
+           kind="tiny-frame", nrec=3, lens=[14 + n, 47, 14 + n])
     mk("letonly", [Import("ipv4"), Let("p", Call("ipv4::udp::unicast", SOCK("1.2.3.4:1"), SOCK("1.2.3.5:2"), _x=[STR("x")]))],
        kind="let-only", nrec=0)
     st = [Import("ipv4"), Let("p", Call("ipv4::udp::unicast", SOCK("1.2.3.4:1"), SOCK("1.2.3.5:2"), _x=[STR("abc")])),
@@ -65,10 +72,12 @@ def run(ctx):
     queries, owners = [], []
     for c in cases:
         ctx.count(c.gen["kind"])
+        if c.impl.status in ("crash", "timeout") and c.model["status"] == "ok":
+            # the property is about every program the compiler accepts: no output at all for packets the model emits
+            ctx.fail("emit-crash", "the compiler crashed while emitting packets the model writes: " + str(c.impl.kind)[:200],
+                     diff.replay_of(c))
         if not diff.triage(ctx, c):
             continue
-        if c.impl.rc != 0 and False:
-            pass
         if c.impl.pcap is None:
             ctx.fail("no-output", "run reported ok but no output file exists", diff.replay_of(c))
             continue
